@@ -61,7 +61,7 @@ def main():
             rc_clean, out_clean = run_demo(demo, w + "/src")
             ap = sh("git -C %s apply %s" % (w, diff))
             if ap.returncode != 0:
-                ap = sh("git -C %s apply --3way %s" % (w, diff))
+                ap = sh("cd %s && patch -p1 -F3 -s --no-backup-if-mismatch < %s" % (w, diff))
             meta["applies"] = ap.returncode == 0
             if ap.returncode != 0:
                 meta["note"] = "patch does not apply to the current tree: " + ap.stdout[-300:]
